@@ -109,8 +109,8 @@ package log
 //@ func (*segment).sync
 //@   requires SegInv(s) && CrashOK0(s) && SyncedOK(s)
 //@   modifies s.synced, contents(s.file.Data), s.file.gdur
-//@   ensures [C14.sync-header-last] result0 == nil ==> hdrDur(s) == s.n && hdrMem(s) == s.n && s.synced == s.n
-//@   ensures [C14.sync-keeps] SegInv(s) && CrashOK0(s) && SyncedOK(s) && (result0 == nil || old(CrashOK(s)) ==> CrashOK(s)) && s.n == old(s.n) && s.size == old(s.size)
+//@   ensures [C14+C10.sync-header-last] result0 == nil ==> hdrDur(s) == s.n && hdrMem(s) == s.n && s.synced == s.n
+//@   ensures [C14+C10.sync-keeps] SegInv(s) && CrashOK0(s) && SyncedOK(s) && (result0 == nil || old(CrashOK(s)) ==> CrashOK(s)) && s.n == old(s.n) && s.size == old(s.size)
 //@   ensures [C13.sync-frame] forall(p, p < hdrPos(s) || p >= hdrPos(s) + 8 ==> raw(s.file.Data, p) == old(raw(s.file.Data, p)))
 //@   crash_inv [C14.sync-crash-ok] CrashOK0(s) && (old(CrashOK(s)) ==> hdrDur(s) <= s.n)
 
@@ -178,5 +178,5 @@ package log
 //@ func (*Log).CommitN
 //@   requires LogShape(l)
 //@   modifies segment.synced, elems(uint8), mmap.File.gdur
-//@   ensures [C14.commitn-last] result0 == nil && l.last.prevIndex < n ==> hdrDur(l.last) == l.last.n && hdrMem(l.last) == l.last.n && !(l.last.synced < l.last.n)
+//@   ensures [C14+C10.commitn-last] result0 == nil && l.last.prevIndex < n ==> hdrDur(l.last) == l.last.n && hdrMem(l.last) == l.last.n && !(l.last.synced < l.last.n)
 //@   loop 1 unroll 2
